@@ -26,21 +26,21 @@ def parserNameOf (p : ParserInst) : Py String :=
 def headerUnparse (p : ParserInst) (fs : Compute.Fields) : Py Compute.Fields :=
   if p.cls == "CoAPParser" then coapUnparse p.coapMode fs else pure fs
 
-/-- the loop of `PacketParser.unparse`: each header parser, in stack order, gets the fields whose id contains its
-    name and contributes what its own `unparse` returns -/
-def unparseClaimed (fs : Compute.Fields) : List (ParserInst × String) → Py Compute.Fields
-  | [] => pure []
-  | (p, n) :: rest => do
-    let mine ← headerUnparse p (fs.filter (fun f => strContains f.1 n))
-    let more ← unparseClaimed fs rest
-    pure (mine ++ more)
+/-- the loop of `PacketParser.unparse`: each header parser, in stack order, takes from the fields not yet taken those
+    whose id contains its name and contributes what its own `unparse` returns; returns (output, fields nobody took) -/
+def unparseClaimed : Compute.Fields → List (ParserInst × String) → Py (Compute.Fields × Compute.Fields)
+  | rem, [] => pure ([], rem)
+  | rem, (p, n) :: rest => do
+    let mine ← headerUnparse p (rem.filter (fun f => strContains f.1 n))
+    let (more, rem') ← unparseClaimed (rem.filter (fun f => !strContains f.1 n)) rest
+    pure (mine ++ more, rem')
 
-/-- `PacketParser.unparse(decompressed_fields)`; fields no parser of the stack claims (the payload, headers reached
+/-- `PacketParser.unparse(decompressed_fields)`; fields no parser of the stack takes (the payload, headers reached
     by next-header prediction) follow unchanged -/
 def packetUnparse (parsers : List ParserInst) (fs : Compute.Fields) : Py Compute.Fields := do
   let names ← parsers.mapM parserNameOf
-  let claimed ← unparseClaimed fs (parsers.zip names)
-  pure (claimed ++ fs.filter (fun f => !(names.any (strContains f.1 ·))))
+  let (claimed, rem) ← unparseClaimed fs (parsers.zip names)
+  pure (claimed ++ rem)
 
 /-- `decompress(…, unparser=…)` up to the final list of fields: residues → fields (compute fields as zero
     placeholders) → un-parse when an unparser is given → compute functions, at the positions recorded while walking
